@@ -141,6 +141,20 @@ type Trans struct {
 	Txs        []TxRec // transitions the tracer saw for this step (incl. auto)
 	Mach       *am.Machine
 	Index      am.S // StateNames
+	// Panic is set when the mutation call itself panicked (escaped to the
+	// caller); Result/After are then meaningless and the machine is poisoned.
+	Panic string
+}
+
+// SafeApply applies the step, converting an escaping panic into a string.
+func SafeApply(s Step, m *am.Machine) (res am.Result, panicked string) {
+	defer func() {
+		if p := recover(); p != nil {
+			panicked = fmt.Sprint(p)
+			res = am.Canceled
+		}
+	}()
+	return s.Apply(m), ""
 }
 
 // Replay is the replay object for a sequential case.
@@ -248,7 +262,12 @@ func ExploreSpec(sp Spec, muts []Step, o ExploreOpts, visit func(t *Trans)) (sta
 			if o.BeforeMut != nil {
 				o.BeforeMut(m)
 			}
-			t.Result = mu.Apply(m)
+			t.Result, t.Panic = SafeApply(mu, m)
+			if t.Panic != "" {
+				transitions++
+				visit(t)
+				continue
+			}
 			t.After = m.ActiveStates(nil)
 			t.TimeAfter = m.Time(nil)
 			t.Txs = tr.Txs
